@@ -5,4 +5,5 @@ var Registry = map[string]func(args []string){
 	"fid":      Fid,
 	"serve":    Serve,
 	"stoprace": StopRace,
+	"fidconc":  FidConc,
 }
